@@ -55,6 +55,7 @@ type emitted struct {
 	data []byte
 	fin  bool
 	open bool
+	lost bool // declared lost by the driver: the drain phase does not deliver it (its retransmission is a new frame)
 }
 
 type emittedCtrl struct {
@@ -113,12 +114,17 @@ type runner struct {
 	idleDrain   int
 	resetAt     bool // style: exercise RESET_STREAM_AT (boundaries, then CancelWrite, then keep sending)
 	resetDrain  int
+	lateRetrans bool // drain style: lose a data frame, acknowledge the FIN frame, only then pop the retransmission
+	finAckNext  int  // emission index of the FIN frame to acknowledge next (-1: none)
+	doneTotal   int64 // onStreamCompleted calls so far: the connection then removes the stream from the framer
 }
 
 // NewRunner: pair=false is the sender-only driver, pair=true adds the receive stream.
 func NewRunner(t *testing.T, r *vh.Rand, pair bool) vh.Runner {
 	rn := &runner{t: t, pair: pair, plan: 8 + r.Intn(110), noReset: r.Chance(60), drain: r.Chance(75), delivered: map[int]bool{}}
 	rn.resetAt = r.Chance(30)
+	rn.lateRetrans = r.Chance(45)
+	rn.finAckNext = -1
 	if pair {
 		rn.noReset = r.Chance(80)
 		rn.drain = r.Chance(85)
@@ -378,6 +384,7 @@ func (rn *runner) exec(op string) string {
 		if f[0] == "ack" {
 			e.h.OnAcked(e.f)
 		} else {
+			e.lost = true
 			if i%2 == 0 {
 				e.f.DataLenPresent = false // the packer drops the length of the last frame of a packet
 			}
@@ -439,6 +446,7 @@ func (rn *runner) finish(res string) string {
 			w = "B"
 		}
 	}
+	rn.doneTotal += rn.evX.Load()
 	return fmt.Sprintf("%s ev=%d,%d,%d w=%s %s", res, rn.evD.Load(), rn.evC.Load(), rn.evX.Load(), w, rn.digest())
 }
 
@@ -502,6 +510,15 @@ func genWrite(r *vh.Rand) string {
 	return "write " + hexOrDash(r.Bytes(n))
 }
 
+// popOr: a pop, unless onStreamCompleted already fired — the connection then has removed the stream from the
+// framer and never asks it for frames again (Conn.onStreamCompleted -> framer.RemoveActiveStream)
+func (rn *runner) popOr(r *vh.Rand) string {
+	if rn.doneTotal > 0 && r.Chance(95) {
+		return "ctrl"
+	}
+	return genPop(r)
+}
+
 func genPop(r *vh.Rand) string {
 	var mb int64
 	switch r.Pick(8, 22, 70) {
@@ -552,6 +569,17 @@ func (rn *runner) GenOp(r *vh.Rand, i int) string {
 		}
 		st := rn.str.VerifState()
 		hasData := st.DataForWriting > 0 || st.NextFrame[0] >= 0 || len(st.RetransQ) > 0 || (st.FinishedWriting && !st.FinSent)
+		if rn.finAckNext >= 0 { // "lost f; acked <FIN frame>; pop": the retransmission is popped only after the FIN was acknowledged
+			k := rn.finAckNext
+			rn.finAckNext = -1
+			if k < len(rn.ems) && rn.ems[k].open {
+				return fmt.Sprintf("ack %d", k)
+			}
+		}
+		// once onStreamCompleted fired the connection removes the stream from the framer: nothing is popped any more
+		if rn.doneTotal > 0 {
+			hasData = false
+		}
 		if hasData && !st.Reset && !st.Shutdown && rn.idleDrain < 400 {
 			rn.idleDrain++
 			return fmt.Sprintf("pop %d %d 0", r.Range(40, 1452), 1<<20)
@@ -562,6 +590,22 @@ func (rn *runner) GenOp(r *vh.Rand, i int) string {
 		}
 		if len(open) > 0 {
 			k := open[r.Intn(len(open))]
+			if rn.lateRetrans && !rn.lostOnce && !st.Reset {
+				// lose a data frame while the FIN frame is still in flight, then acknowledge the FIN frame first
+				fin, data := -1, -1
+				for _, i := range open {
+					if rn.ems[i].fin {
+						fin = i
+					} else if data < 0 || r.Chance(40) {
+						data = i
+					}
+				}
+				if fin >= 0 && data >= 0 {
+					rn.lostOnce = true
+					rn.finAckNext = fin
+					return fmt.Sprintf("lost %d", data)
+				}
+			}
 			if !rn.lostOnce && r.Chance(35) {
 				return fmt.Sprintf("lost %d", k)
 			}
@@ -595,11 +639,11 @@ func (rn *runner) GenOp(r *vh.Rand, i int) string {
 	switch r.Pick(30, 30, 12, 10, 2, wReset, wBoundary, 3, 2) {
 	case 0:
 		if rn.wpending && r.Chance(90) {
-			return genPop(r)
+			return rn.popOr(r)
 		}
 		return genWrite(r)
 	case 1:
-		return genPop(r)
+		return rn.popOr(r)
 	case 2:
 		if len(open) > 0 && r.Chance(95) {
 			return fmt.Sprintf("ack %d", open[r.Intn(len(open))])
@@ -612,7 +656,7 @@ func (rn *runner) GenOp(r *vh.Rand, i int) string {
 		return fmt.Sprintf("lost %d", r.Intn(len(rn.ems)+2))
 	case 4:
 		if rn.wpending && r.Chance(80) {
-			return genPop(r) // Close must not be called concurrently with Write (rarely done anyway)
+			return rn.popOr(r) // Close must not be called concurrently with Write (rarely done anyway)
 		}
 		rn.closed = true
 		return "close"
@@ -634,7 +678,7 @@ func (rn *runner) GenOp(r *vh.Rand, i int) string {
 		}
 	case 6:
 		if rn.reset && r.Chance(90) {
-			return genPop(r) // SetReliableBoundary after a reset is API misuse: rare
+			return rn.popOr(r) // SetReliableBoundary after a reset is API misuse: rare
 		}
 		return "boundary"
 	case 7:
@@ -642,7 +686,7 @@ func (rn *runner) GenOp(r *vh.Rand, i int) string {
 	default:
 		oc := rn.openCtrls()
 		if len(oc) == 0 {
-			return genPop(r)
+			return rn.popOr(r)
 		}
 		if r.Bool() {
 			return fmt.Sprintf("rack %d", oc[r.Intn(len(oc))])
@@ -661,14 +705,17 @@ func (rn *runner) genPair(r *vh.Rand, i int) string {
 		// drain: once the sender has nothing left, deliver every frame not delivered yet, then read to the end
 		st := rn.str.VerifState()
 		hasData := st.DataForWriting > 0 || st.NextFrame[0] >= 0 || len(st.RetransQ) > 0 || (st.FinishedWriting && !st.FinSent)
-		if (!rn.closed && !rn.reset && !rn.shut && !rn.wpending) || (hasData && !st.Reset && !st.Shutdown && rn.idleDrain < 400) {
+		if rn.doneTotal > 0 {
+			hasData = false // the stream left the framer: what was not popped by now never reaches the reader
+		}
+		if rn.finAckNext >= 0 || (!rn.closed && !rn.reset && !rn.shut && !rn.wpending) || (hasData && !st.Reset && !st.Shutdown && rn.idleDrain < 400) {
 			return ""
 		}
 		if len(rn.openFrames()) > 0 && !rn.lostOnce {
 			return "" // let the sender lose and retransmit something first
 		}
 		for k := 0; k < n; k++ {
-			if !rn.delivered[k] {
+			if !rn.delivered[k] && !rn.ems[k].lost {
 				return fmt.Sprintf("deliver %d", k)
 			}
 		}
